@@ -7,6 +7,8 @@ Tie to the code:
   (1) tlparser.ParseSchema and the cursor methods (built from the tree) vs the extracted
       TLGen/Parser.v on shipped schemas, fixtures, random schemas of the subset, malformed input;
   (2) createInternalSchema (verif export) vs TLGen/Classify.v;
+  (2b) in process: one parsed *tlparser.Schema generated from three times (Generate twice on one
+      Generator, then a second Generator), outputs byte-compared, the schema deep-compared with a fresh parse;
   (3) the tlgen BINARY built from the tree: output compiled in a scratch module together with a
       stub Client, reflected, and compared with the descriptors of TLGen/Classify.v; generated
       twice and byte-compared.
@@ -392,6 +394,7 @@ def run(ctx):
     samples = []
     cursor_cases = 0
     classes = {}
+    inproc_runs = {}
     todo = []
     for cid, rows in impl.items():
         if cid.startswith("c"):
@@ -455,6 +458,14 @@ def run(ctx):
             if rt and rt[0][2] not in ("ok", "n/a"):
                 C.violation(ctx, key + ":roundtrip", "model: parse (print s) %s for the parsed value of %r" % (rt[0][2], shown[:120]),
                             dict(replay, no_failing_input=True, broken="C14_parse_print instance"))
+            # in-process generation from one parsed schema value
+            ip = [txt(r[2]) for r in rows if r[0] == "I"]
+            if ip:
+                inproc_runs[ip[0].split(":")[0].split(" ")[0]] = inproc_runs.get(ip[0].split(":")[0].split(" ")[0], 0) + 1
+                if ip[0] != "ok" and not ip[0].startswith("first:"):
+                    C.violation(ctx, key + ":inprocess", "generating again from the same parsed schema %r...: %s" % (shown[:80], ip[0]),
+                                dict(replay, expected="Generate twice on one Generator and a second NewGenerator+Generate from the same *tlparser.Schema "
+                                                      "give byte-identical files and leave the schema unchanged", got=ip[0], oracle="in-process generation"))
             # classification
             ik = sorted(tuple(r[2:]) for r in rows if r[0] == "K")
             mk = sorted(tuple(r[3:]) for r in model[cid] if r[0] == "E" and r[2] == "class")
@@ -508,7 +519,7 @@ def run(ctx):
                  % (3 if ctx.tier == "thorough" else 2),
          "samples": samples, "input_distribution": stats, "coqchk": chk,
          "termination": "C14_parse_terminates: the parser model never exhausts its (linear) loop budget, for every byte string; "
-                        "on the implementation side every ParseSchema call runs under a 5 s watchdog and a 'hang' is a violation with the input as replay", "result_classes": classes, "cursor_method_sequences": cursor_cases,
+                        "on the implementation side every ParseSchema call runs under a 5 s watchdog and a 'hang' is a violation with the input as replay", "result_classes": classes, "cursor_method_sequences": cursor_cases, "in_process_generation": inproc_runs,
          "disagreements_checked": disagreements, "generator": cst,
          "projection": "result class ok/err/panic/hang; for ok every definition: section, name, id, result type, vector marker, parameters (name, type, vector, conditional, bit) in order; "
                        "classification per type name; per constructor of the compiled package: id, Go type name, fields in order with kind and tl tag, FlagIndex, Implements methods; "
@@ -540,6 +551,13 @@ def replay(ctx, path):
         if obj.get("expected") == "a schema or an error":
             # totality finding: only a panic / hang is a failure, the generator is not involved
             bad = o.startswith("P\tpanic") or o.startswith("P\thang")
+            if bad:
+                print("VIOLATION property=C14 replay=%s" % path)
+            return 1 if bad else 0
+        if obj.get("oracle") == "in-process generation":
+            rc, o2 = C.sh([hb, "inproc", src], env=ctx.env(), timeout=600)
+            print("in-process generation:", o2.strip()[:300])
+            bad = not (o2.startswith("I\tok") or o2.startswith("I\tfirst:"))
             if bad:
                 print("VIOLATION property=C14 replay=%s" % path)
             return 1 if bad else 0
